@@ -1,6 +1,7 @@
 package zz_verifsim
 
 import (
+	"bytes"
 	bls12 "github.com/kilic/bls12-381"
 	"fmt"
 	"time"
@@ -271,6 +272,48 @@ func resplitSig(sig hotstuff.QuorumSignature) hotstuff.QuorumSignature {
 	return nil
 }
 
+// padSig appends two bytes to the last entry of a multi-signature.
+func padSig(sig hotstuff.QuorumSignature) hotstuff.QuorumSignature {
+	switch s := sig.(type) {
+	case crypto.Multi[*crypto.EDDSASignature]:
+		if len(s) == 0 {
+			return nil
+		}
+		out := append(crypto.Multi[*crypto.EDDSASignature](nil), s...)
+		e := out[len(out)-1]
+		out[len(out)-1] = crypto.RestoreEDDSASignature(append(append([]byte(nil), e.ToBytes()...), 0, 1), e.Signer())
+		return out
+	case crypto.Multi[*crypto.ECDSASignature]:
+		if len(s) == 0 {
+			return nil
+		}
+		out := append(crypto.Multi[*crypto.ECDSASignature](nil), s...)
+		e := out[len(out)-1]
+		out[len(out)-1] = crypto.RestoreECDSASignature(append(append([]byte(nil), e.ToBytes()...), 0, 1), e.Signer())
+		return out
+	}
+	return nil
+}
+
+// sandwichSig builds [own, other, own] from two single signatures.
+func sandwichSig(own, other hotstuff.QuorumSignature) hotstuff.QuorumSignature {
+	switch o := own.(type) {
+	case crypto.Multi[*crypto.EDDSASignature]:
+		x, ok := other.(crypto.Multi[*crypto.EDDSASignature])
+		if !ok || len(o) != 1 || len(x) != 1 {
+			return nil
+		}
+		return crypto.Multi[*crypto.EDDSASignature]{o[0], x[0], o[0]}
+	case crypto.Multi[*crypto.ECDSASignature]:
+		x, ok := other.(crypto.Multi[*crypto.ECDSASignature])
+		if !ok || len(o) != 1 || len(x) != 1 {
+			return nil
+		}
+		return crypto.Multi[*crypto.ECDSASignature]{o[0], x[0], o[0]}
+	}
+	return nil
+}
+
 // retypeSig keeps signers and bytes entry by entry but presents them as a multi-signature of the other scheme.
 func retypeSig(sig hotstuff.QuorumSignature) hotstuff.QuorumSignature {
 	switch s := sig.(type) {
@@ -363,6 +406,17 @@ func (a *adversary) forgeQC(nd *Node, kind string, view hotstuff.View) (hotstuff
 		sig := repeatSig(a.ownSig(nd, b.ToBytes()), q)
 		if sig == nil {
 			return hotstuff.QuorumCert{}, false
+		}
+		if len(a.votes) > 0 && a.chance(0.5) {
+			// own signature, somebody's genuine vote for a real block, own signature again: repeats that are not neighbours
+			v := a.votes[len(a.votes)-1]
+			if rb := w.reg.get(v.BlockHash()); rb != nil && v.Signer() != nd.id {
+				if mine := a.ownSig(nd, rb.ToBytes()); mine != nil {
+					if rs := sandwichSig(mine, v.Signature()); rs != nil {
+						return hotstuff.NewQuorumCert(rs, rb.View(), rb.Hash()), true
+					}
+				}
+			}
 		}
 		return hotstuff.NewQuorumCert(sig, b.View(), b.Hash()), true
 	case "nosig":
@@ -505,6 +559,44 @@ func (a *adversary) onPropose(nd *Node, p *hotstuff.ProposeMsg) bool {
 				a.sendTo(nd, id, "propose", hotstuff.ProposeMsg{ID: nd.id, Block: b, AggregateQC: &agg})
 			}
 			a.fired("aggtwin")
+			return true
+		}
+	}
+	if has(acts, "payloadeq") && len(b.Commands().GetCommands()) > 0 && a.chance(0.7) {
+		// the same block in every respect (created at the same instant) except for the payload of its commands:
+		// command identities, parent, certificate, view and proposer are equal
+		var cmds []*clientpb.Command
+		for _, c := range b.Commands().GetCommands() {
+			cmds = append(cmds, &clientpb.Command{ClientID: c.ClientID, SequenceNumber: c.SequenceNumber, Data: append(append([]byte(nil), c.Data...), '~')})
+		}
+		b2 := hotstuff.NewBlock(b.Parent(), b.QuorumCert(), &clientpb.Batch{Commands: cmds}, b.View(), nd.id)
+		w.reg.add(b2, nd)
+		p2 := hotstuff.ProposeMsg{ID: nd.id, Block: b2, AggregateQC: p.AggregateQC}
+		for i, id := range a.others(nd) {
+			if i%2 == 0 {
+				a.sendTo(nd, id, "propose", *p)
+			} else {
+				a.sendTo(nd, id, "propose", p2)
+			}
+		}
+		a.fired("payloadeq")
+		return true
+	}
+	if has(acts, "qceq") && a.chance(0.7) {
+		// the same block (created at the same instant) with another valid certificate for the same parent: a
+		// different quorum taken from the votes the leader holds
+		if alt, ok := a.otherQuorum(nd, b.QuorumCert()); ok {
+			b2 := hotstuff.NewBlock(b.Parent(), alt, b.Commands(), b.View(), nd.id)
+			w.reg.add(b2, nd)
+			p2 := hotstuff.ProposeMsg{ID: nd.id, Block: b2, AggregateQC: p.AggregateQC}
+			for i, id := range a.others(nd) {
+				if i%2 == 0 {
+					a.sendTo(nd, id, "propose", *p)
+				} else {
+					a.sendTo(nd, id, "propose", p2)
+				}
+			}
+			a.fired("qceq")
 			return true
 		}
 	}
@@ -672,6 +764,54 @@ func (a *adversary) rogueKeyQC(nd *Node) (hotstuff.QuorumCert, bool) {
 		return hotstuff.NewQuorumCert(agg, b.View(), b.Hash()), true
 	}
 	return hotstuff.QuorumCert{}, false
+}
+
+// otherQuorum builds a second valid certificate for the block qc certifies, from another quorum of the votes seen.
+func (a *adversary) otherQuorum(nd *Node, qc hotstuff.QuorumCert) (hotstuff.QuorumCert, bool) {
+	w := a.w
+	b := w.reg.get(qc.BlockHash())
+	if b == nil || qc.Signature() == nil {
+		return qc, false
+	}
+	have := map[hotstuff.ID]hotstuff.PartialCert{}
+	var ids []hotstuff.ID
+	for _, v := range a.votes {
+		if v.BlockHash() != qc.BlockHash() || v.Signature() == nil || v.Signature().Participants().Len() != 1 {
+			continue
+		}
+		id := v.Signer()
+		if _, ok := have[id]; ok || !w.orc.honestSigned(id, b.ToBytes()) {
+			continue
+		}
+		have[id] = v
+		ids = append(ids, id)
+	}
+	q := quorumOf(w.plan.N)
+	if len(ids) < q {
+		return qc, false
+	}
+	// a quorum that differs from the one in qc: leave out one of qc's signers if possible
+	var drop hotstuff.ID
+	for _, id := range ids {
+		if qc.Signature().Participants().Contains(id) {
+			drop = id
+			break
+		}
+	}
+	var parts []hotstuff.PartialCert
+	for _, id := range ids {
+		if id != drop && len(parts) < q {
+			parts = append(parts, have[id])
+		}
+	}
+	if len(parts) < q {
+		return qc, false
+	}
+	alt, err := nd.auth.CreateQuorumCert(b, parts)
+	if err != nil || alt.Signature() == nil || bytes.Equal(alt.Signature().ToBytes(), qc.Signature().ToBytes()) {
+		return qc, false
+	}
+	return alt, true
 }
 
 // attestInAggregate rebuilds an aggregate certificate so that the Byzantine replica's own entry attests qc.
@@ -1016,6 +1156,16 @@ func (a *adversary) onNewView(nd *Node, to hotstuff.ID, si *hotstuff.SyncInfo) b
 	if f := a.pickForgery(acts); f != "" && a.chance(0.7) {
 		if qc, ok := a.forgeQC(nd, f, nd.states.View()); ok {
 			fsi := hotstuff.NewSyncInfoWith(qc)
+			if len(a.tcs) > 0 && a.chance(0.5) {
+				// ... riding next to the newest genuine timeout certificate (for a view above the forged QC's)
+				tc := a.tcs[0]
+				for _, c := range a.tcs {
+					if c.View() > tc.View() {
+						tc = c
+					}
+				}
+				fsi.SetTC(tc)
+			}
 			targets := []hotstuff.ID{to}
 			if a.chance(0.5) {
 				targets = a.others(nd)
